@@ -667,7 +667,7 @@ Section Parse.
 
   Definition mem_tag (t : tag) (l : list tag) : bool := existsb (tag_eqb t) l.
 
-  (** headerLine: the header is edited in place, field by field *)
+  (** headerLine, the field loop (on a working copy of the @HD fields) *)
   Fixpoint hd_fields (hd : hdr) (fs : list str) : hdr * Z :=
     match fs with
     | [] => (hd, if is_empty (h_vn hd) then eBadHeader else 0)
@@ -688,9 +688,10 @@ Section Parse.
       end
     end.
 
+  (** the fields are collected first and stored only when the whole line is accepted *)
   Definition header_line (hd : hdr) (l : str) : hdr * Z :=
     match split TAB l with
-    | _ :: f1 :: fs => hd_fields hd (f1 :: fs)
+    | _ :: f1 :: fs => let '(hd', e) := hd_fields hd (f1 :: fs) in if e =? 0 then (hd', 0) else (hd, e)
     | _ => (hd, eBadHeader)
     end.
 
